@@ -187,7 +187,7 @@ func init() {
 	})
 	register(&Check{
 		ID: "C11", Level: "fault_enumeration",
-		NCases: func(t string) int { return tier(t, 32, 640) },
+		NCases: func(t string) int { return tier(t, 32, 2000) },
 		Run: func(c *CaseCtx) {
 			runCrashWorkload(c, crashOpts{Power: true, Modes: []int{0, 0, 1, 2}, NTx: 10 + c.Rng.Intn(20), Failed: c.Case%2 == 0, Reopen: true,
 				Mode: "state", Class: "power-loss", Merge: c.Case%4 == 1})
